@@ -135,3 +135,34 @@ def c08(ctx):
     r = hgen(ctx, "C08", ctx.path("rand.ndjson"))
     judge(ctx, "C08", vf.cat(ctx.path("vec.ndjson"), g1, g2, g3, r), what="write/read laws")
     ctx.exhaustive = True
+
+
+# =========================================================================== ar (C13, C15 ar level)
+@prop("C13", "C13Trace",
+      "TLC renders every archive of up to 2 members drawn from 5 name shapes (1, 15, 16 bytes, inner space, "
+      "debian-binary) x sizes (0, odd, even) x blank numeric columns x BSD/GNU naming; the real iterator's steps "
+      "(header offset via SectionReader.Outer, metadata, bytes, re-reads, late re-reads) are judged for exact "
+      "agreement; plus seeded archives with members up to 70 KB of random binary data (digest-compared).")
+def c13(ctx):
+    t = ctx.tier
+    mc(ctx, "ArMC.tla", "ArMC_%s.cfg" % t, what="Ar.Next machine: exact on clean archives, safe on damaged ones")
+    g1 = gen(ctx, "ArGen.tla", "ArGen_wellformed_%s.cfg" % t, ctx.path("wf.ndjson"), what="well-formed archives")
+    r = hgen(ctx, "C13", ctx.path("rand.ndjson"))
+    judge(ctx, "C13", vf.cat(ctx.path("vec.ndjson"), g1, r), what="iteration vs member model", chunk=4000)
+    ctx.exhaustive = True
+    ctx.assumptions += ["contents of members larger than 4 KiB are compared by SHA-256 in the harness (a fact TLA+ cannot compute)"]
+
+
+@prop("C15", "C13Trace",
+      "TLC corrupts spec-rendered archives: every header column of every member set to each hostile text (negative, "
+      "-60, -61, -62, huge, blank, junk, signed, 60, -0), each magic byte, each global-magic byte, truncation at every "
+      "offset; the real iterator is run twice under a step budget and a panic guard and every step is judged for the "
+      "safety conditions; plus seeded multi-fault damage and (thorough) coverage-guided fuzzing whose corpus is "
+      "replayed through the tracer.")
+def c15(ctx):
+    t = ctx.tier
+    mc(ctx, "ArMC.tla", "ArMC_%s.cfg" % t, what="Ar.Next machine: safe and bounded on damaged archives")
+    g1 = gen(ctx, "ArGen.tla", "ArGen_corrupt_%s.cfg" % t, ctx.path("corrupt.ndjson"), what="corrupted archives")
+    r = hgen(ctx, "C15", ctx.path("rand.ndjson"))
+    judge(ctx, "C15", vf.cat(ctx.path("vec.ndjson"), g1, r), what="iteration safety on damaged archives")
+    ctx.exhaustive = True
